@@ -2,5 +2,5 @@
 EXTENDS Binding
 cPool == {"a", "B", "a_", "_a", "ab"}
 cStrangers == {"A", "b", "w_"}
-cVals == <<RI(2), RQ(-3, 2), RI(5), RQ(1, 4)>>
+cVals == <<RI(2), RQ(-3, 2), RI(0), RI(5), RQ(1, 4)>>
 ====
